@@ -152,6 +152,28 @@ CLAIMED = {
 NOT_YET = {}
 
 
+# what was added to each check after the first build (DESIGN.md section 9b); appended to the level text
+EXT = {
+    "C01": "Added: post-selected heterodyne, multi-mode Gaussian(V, r) preparations (decomposed and native) and MSgate(avg, eta < 1) events; operations after register events: 2 correlated 3-mode base states per simulator x 8 Del/New sequences x every event of the alphabet on every tuple of the surviving indices.",
+    "C05": "Added: the events and register-history part of C01; del_mode / add_mode judged differentially on every explored state; the Fock spectator bound is the truncation loss of the reference transition.",
+    "C07": "Added: the events and register-history part of C01; physicality of bosonic cat states incl. fractional parities and both representations after <= 1 Gaussian operation (weights, real Wigner function, purity, fidelities, uncertainty).",
+    "C02": "Added: every zero pattern of the vector of means of Gaussian(V, r) on 1-3 modes.",
+    "C04": "Added: letters for an operation fed by the measurement of its own mode, a two-mode gate fed by one of its modes, mode creation in mid-program and an operation on the created mode (33 letters); GBS compile on a register with a deleted first mode.",
+    "C06": "Added: threshold detection on the bosonic simulator; photon counting on 3 Fock modes in every order; sampled Fock homodyne (probability vector handed to numpy.random.multinomial against the Born density on the documented grid); post-selected homodyne / heterodyne on entangled cat states of the bosonic simulator against a dense Fock reference at cutoff 30; outcomes in units of hbar != 2 with the same Program object executed twice.",
+    "C08": "Added: the reference is a full Gaussian state over all indices ever created (displaced squeezed tags, a Mix beamsplitter with complex phase, whole covariance compared on the phase-space simulators); photon counting after a deletion on the Fock simulator.",
+    "C09": "Added fragments: a mode measured twice, feed-forward of an outcome of an earlier segment, deletion of an inherited mode in a later segment, two adjacent channels merged by the optimiser (10 fragments).",
+    "C10": "Added: values of multi-mode photon-counting / threshold commands on every ordered tuple of 3 modes (RegRef value and feed-forward); binding by own / foreign parameter object.",
+    "C11": "Added: hybrid circuits on 2 modes up to length 4 (thorough 5; 3 modes up to length 3 in thorough).",
+    "C12": "Added: single-loop TDM device with acceptance decided exactly by conformance over the product of 10 deviations (hard-coded arguments, topology, range and range-gap violations per array, mode limits, compiler named or from device, ranges published or not); sources deviating in a hard-coded layout argument on X-series and Borealis devices must be refused; partial user-offset patterns (structural oracles only).",
+    "C13": "Added: get_delays / get_crop_value / run(crop=True) / cropped space-unrolled state against the explicit loop over every beamsplitter-array assignment of {0, 0.7, pi/2} for 1 and 2 loops (T = 4, thorough 5).",
+    "C14": "Added: generate_code over every multiple k pi/12, |k| <= 60, with offsets inside and outside its snapping tolerance, in gate slots and TDM arrays; executability of the generated script; measured parameters of modes with two-digit indices.",
+    "C15": "Added: the shared module-level MeasureX / MeasureP objects, feed-forward of a sampled outcome, Result.samples in units of hbar, second execution of the same Program object at every hbar.",
+    "C16": "Added: cat states of the bosonic simulator (+ <= 1 Gaussian operation, 1-2 modes) against a dense Fock reference at cutoff 30 (moments, parity, Wigner, marginal, fidelities, purity, Fock probabilities); backend.state(modes=S) for every ordered S of 3 distinguishable modes on all simulators incl. a gates-only pure Fock circuit; reduced_gaussian / reduced_bosonic / displacement; poly_quad variance on every mode; x/p quadrature distributions.",
+    "C17": "Added: biadjacency matrices over {0, 1, i, -i} (Hermitian non-real inputs).",
+    "C19": "Added: arguments and the input graph must come back unchanged from every helper.",
+}
+
+
 def main():
     props = [json.loads(l) for l in open(os.path.join(HERE, "properties.jsonl"))]
     checks = []
@@ -168,7 +190,7 @@ def main():
                     "evidence_file": f"/verif/evidence/{pid}.json",
                     "replay_cmd_template": f"./check {pid} --replay {{path}}",
                     "engine": "mc-explorer",
-                    "level_claimed": {"category": cat, "text": text, "design_ref": ref},
+                    "level_claimed": {"category": cat, "text": text + (" " + EXT[pid] if pid in EXT else ""), "design_ref": ref + ("; section 9b" if pid in EXT else "")},
                     "level_note": note,
                     "technique": tech,
                 }
